@@ -538,6 +538,14 @@ class SizedIter(CustomIter):
         return e in self._xs[self._i:]
 
 
+def _named(name, base):
+    """A user class that happens to be CALLED like an abstract collection (domain models do: Sequence, Collection, Set, Mapping)."""
+    return type(name, (base,), {"__module__": __name__, "__qualname__": name})
+
+
+NAMED_ITERS = {n: _named(n, CustomIter) for n in ("Sequence", "Collection", "Iterable", "MutableSequence", "AbstractSet")}
+NAMED_VARS = {n: _named(n, VarsOnly) for n in ("Collection", "Mapping", "Set", "MutableSequence", "MutableMapping", "Hashable", "Sequence")}
+
 _DYN = {}
 
 
@@ -608,6 +616,9 @@ FACTORIES = {
     "RecordLike": (lambda: RecordLike(3, True), ["retries", "verbose"]),
     "UnresolvedHintsSlots": (lambda: UnresolvedHintsSlots("ab:(1, 2)"), ["sender", "subject"]),
     "Empty": (Empty, []),
+    **{f"Named{n}-oneshot": ((lambda c: (lambda: c([3, 2, 1])))(c), None) for n, c in NAMED_ITERS.items()},
+    **{f"Named{n}-oneshot-pairs": ((lambda c: (lambda: c([("a", 1), ("b", 2)])))(c), None) for n, c in NAMED_ITERS.items()},
+    **{f"Named{n}-vars": ((lambda c: (lambda: c((1, 2), [3])))(c), ["a", "c"]) for n, c in NAMED_VARS.items()},
     "AnnClassVar": (lambda: AnnClassVar((1, 2), "ab"), ["a", "b"]),
     "AnnBareClassVar": (lambda: AnnBareClassVar((1, 2), 3), ["name", "size"]),
     "AnnSlotsBase": (lambda: AnnSlotsBase(1, (1, 2)), ["x", "y"]),
